@@ -269,9 +269,9 @@ def spec_check(ctx, budget):
     rng = ctx.subrng(f"spec{budget}")
     U.BIG_BINS = ctx.thorough
     if budget <= 1:
-        plan = _plan(ctx, rng, 8, 2, 1, 1)
+        plan = _plan(ctx, rng, 12, 3, 2, 1)
     else:
-        plan = _plan(ctx, rng, 10 * budget, max(2, budget // 2), max(1, budget // 4), 1)
+        plan = _plan(ctx, rng, (30 if ctx.thorough else 10) * budget, max(2, budget if ctx.thorough else budget // 2), max(1, budget // 2), 2)
     _pairs(ctx, rng, plan, out)
     return out
 
@@ -284,7 +284,7 @@ def correspondence(ctx):
     rng = ctx.subrng("corr")
     U.BIG_BINS = ctx.thorough
     rel = new_outcome()
-    plan = _plan(ctx, rng, 60, 6, 4, 2) if ctx.thorough else _plan(ctx, rng, 6, 1, 1, 0)
+    plan = _plan(ctx, rng, 100, 10, 6, 2) if ctx.thorough else _plan(ctx, rng, 8, 1, 1, 1)
     specs = []
     _pairs(ctx, rng, [(m, ["reroot", "split", "children"]) for m, _ in plan], rel, collect=specs)
     for k, v in rel["dist"].items():
